@@ -47,6 +47,9 @@ SNIPPETS = [
     'info!("x");', 'été!("x")', 'é!("msg")', 'warn!("日本 {}", a);', 'info!(ref = x; "m")', 'error!(target: "t", "m")',
     'info!(k = "v;,"; "m")', 'log::info!("', 'info!(', '"', '\\"', '/*', '*/', '//', 'info!(a = 1, b:? = c; "z")',
     'info!("[ref: 99999999999] m")', 'info!("[ref: ] m")', 'info!(ref = 1, ref = 2; "m")', 'Ж_й::info!("m")', '𝔘!("m")',
+    'info!("[ref: 4294967296] m")', 'warn!("[ref: 9999999999] m")', 'info!(ref = 4294967296; "m")', 'info!(ref = 99999999999999999999; "m")',
+    'info!("[ref: 0000000001] m")', 'info!(ref = -1; "m")', 'info!(ref = 1.5; "m")', 'info!(ref = 0x10; "m")',
+    'info!("[ref: ١٢٣] m")', 'info!("[ref: 12３] m")',
     'info!(\r\n"m")', '\u0085info!("m")', 'info !("m")', "info!('m')", 'info!(r#"m"#)', 'info!(b"m")',
 ]
 
@@ -77,6 +80,10 @@ def mutate(rng, data, nops=None, utf8_only=False, no_repeat=False):
             n = rng.choice([30, 60, 120, 300, 1000])
             # an unclosed opener makes the grammar scan the rest of the file once per copy: keep copies x file size small
             n = max(25, min(n, 20000000 // (len(b) + 1)))
+            if tok in ('info!(', 'info!(k = ', '!('):
+                # nested unclosed macro invocations are re-scanned once per level (1000 levels: 4 s per pass, measured) -
+                # slow on a pathological shape, not a hang; 300 levels keep a run far below the time limit (Correction 18)
+                n = min(n, 300)
             # very long runs only of tokens that are not identifier characters: the grammar retries its macro-name rule at
             # every character of an identifier-like run, so a 100 000-character "identifier" costs quadratic time - a
             # pathological shape, not a hang (DESIGN 12.7)
